@@ -557,8 +557,10 @@ class Enc:
         return '(mkGraph %s %s)' % (clist(ns), clist(es))
 
 
-def case_to_coq(case, o):
+def case_to_coq(case, o, gid=None):
     enc = Enc(o['before'])
+    if gid is not None:
+        enc.gid = gid              # graph ids interned once for several observations (results of different calls)
     A = enc.graph(o['before'])
     garm = enc.gid('ARM')
     supplied = clist(['(%s, %s)' % (cN(enc.did(d)), cN(enc.gid(g))) for d, g in sorted(o['asked_guids'].items())])
@@ -1108,7 +1110,7 @@ class Hist(C13Stream):
         return C13Stream.shrink(self, case, failing)
 
     def gen(self, rng, tier):
-        n = 60 if tier == 'quick' else 400
+        n = 50 if tier == 'quick' else 400
         topo = Topo()
         out = []
         for i in range(n):
@@ -1179,6 +1181,224 @@ class Hist(C13Stream):
 
     def corpus(self):
         return [c for c in load_corpus('topo', hist=True)]
+
+
+# ------------------------------------------------------------------------------------------------
+# several aggregates partitioned in one process, earlier results looked at again afterwards
+# ------------------------------------------------------------------------------------------------
+
+def call_generate(arm, mode, guids):
+    """the four ways a caller can (not) pass delegation_guids"""
+    if mode == 'absent':
+        return arm.generate_adms()
+    if mode == 'none':
+        return arm.generate_adms(None)
+    if mode == 'empty':
+        return arm.generate_adms({})
+    return arm.generate_adms(delegation_guids=dict(guids))
+
+
+def run_pair(case):
+    """two different aggregates with overlapping delegation ids in the same store and process; a sequence of
+    generate_adms calls (argument absent / None / {} / a dictionary); EVERY result is snapshotted when it is
+    returned and again after the last call"""
+    _reset()
+    case = copy.deepcopy(case)
+    arms = {}
+    for name in ('A', 'B'):
+        t, _ = build_topo_ctx(case[name])
+        arm = t.as_arm()
+        annotate(arm, case[name], set(snapshot(arm.storage, arm.graph_id)['nodes'].keys()))
+        arms[name] = arm
+    storage = arms['A'].storage
+    sources = {arms[n].graph_id: n for n in arms}
+    ren = {}                      # actual graph id of a partition -> stable name (first call that returned it)
+    calls = []
+    for i, (which, mode) in enumerate(case['calls']):
+        arm = arms[which]
+        garm = arm.graph_id
+        before = snapshot(storage, garm)
+        guids = {d: 'adm-guid-%d-%s' % (i, d) for d in case.get('guids', [])} if mode == 'dict' else {}
+        o = {'garm': 'ARM', 'which': which, 'mode': mode, 'before': before, 'via': 'direct', 'asked_guids': dict(guids),
+             'parsed': {'start': parsed_mismatch(arm, before)}, 'rw': {}, 'bystanders_changed': []}
+        keys0 = set(store_graph_ids(storage))
+        try:
+            adms = call_generate(arm, mode, guids)
+        except Exception as e:
+            o['err'] = type(e).__name__
+            o['store'] = ['ARM'] + sorted(str(g) for g in set(store_graph_ids(storage)) - keys0)
+            o['after'] = o['after_generate'] = snapshot(storage, garm)
+            o['parsed']['end'] = parsed_mismatch(arm, before)
+            calls.append(o)
+            continue
+        o['_actual'] = {d: adms[d].graph_id for d in adms}
+        for d in sorted(adms):
+            g = adms[d].graph_id
+            if g not in ren:
+                ren[g] = 'ARM-of-%s' % sources[g] if g in sources else (g if g in guids.values() else 'uuid-call%d-%s' % (i, d))
+        o['adms_at_return'] = {d: {'gid': ren[adms[d].graph_id], 'snap': strip_text(snapshot(storage, adms[d].graph_id))}
+                               for d in sorted(adms)}
+        o['store'] = ['ARM'] + sorted(ren.get(g, 'unexpected:' + str(g)) for g in set(store_graph_ids(storage)) - keys0)
+        o['after_generate'] = snapshot(storage, garm)
+        o['rw'] = {d: [] for d in adms}
+        calls.append(o)
+    # every result once more, after the last call
+    for o in calls:
+        arm = arms[o['which']]
+        o['after'] = snapshot(storage, arm.graph_id)
+        o['parsed']['end'] = parsed_mismatch(arm, o['before'])
+        if '_actual' in o:
+            o['adms'] = {d: {'gid': ren[g], 'snap': strip_text(snapshot(storage, g))} for d, g in o.pop('_actual').items()}
+    return {'calls': calls}
+
+
+class Pair(C13Stream):
+    name = 'pair'
+    case_type = 'list case13'
+    check_fn = 'check13_pair'
+    shard = 25
+    rule = ('two different API-built aggregates with overlapping delegation ids in one store and one process; 2-4 '
+            'generate_adms calls on them in turn, the argument absent / None / {} / a dictionary; every result is '
+            'snapshotted at return and again after the last call, and it is the LATER snapshot that is compared '
+            'with the model and judged by the oracle, plus: graph ids pairwise distinct across all results, an earlier '
+            'result unchanged by a later call; non-trivial = both aggregates have a delegation id in common')
+
+    def observe_here(self, case):
+        try:
+            return run_pair(case)
+        except Exception as e:
+            import traceback
+            return {'build_error': type(e).__name__ + ': ' + str(e)[:200], 'tb': traceback.format_exc()[-600:]}
+
+    def to_coq(self, case, o):
+        if 'build_error' in o:
+            return '[mkCase (mkGraph [] []) 0 [] (mkObs (Ok []) [] None [] None)]'
+        gid = Intern()
+        return clist([case_to_coq(case, c, gid=gid) for c in o['calls']])
+
+    def oracle(self, case, o):
+        if 'build_error' in o:
+            return 'harness could not build the case: ' + o['build_error']
+        seen = {}
+        for i, c in enumerate(o['calls']):
+            for d, v in c.get('adms', {}).items():
+                if v['gid'] in seen:
+                    j, dj = seen[v['gid']]
+                    return ('shared-graph-id: the partition for %s returned by call %d (%s, argument %s) has the graph id of '
+                            'the partition for %s returned by call %d (%s, argument %s)' % (
+                                d, i + 1, c['which'], c['mode'], dj, j + 1, o['calls'][j]['which'], o['calls'][j]['mode']))
+                seen[v['gid']] = (i, d)
+        for i, c in enumerate(o['calls']):
+            if 'adms' in c and c['adms'] != c['adms_at_return']:
+                dd = [d for d in c['adms'] if c['adms'][d] != c['adms_at_return'][d]]
+                return ('earlier-result-changed: the partitions %s returned by call %d (aggregate %s) were changed by a '
+                        'later partitioning' % (dd, i + 1, c['which']))
+        weak = None
+        for i, c in enumerate(o['calls']):
+            strict, w = oracle_case(case, c)
+            if strict:
+                return '%s [result of call %d on aggregate %s, argument %s, looked at after the last call]' % (
+                    strict, i + 1, c['which'], c['mode'])
+            weak = weak or w
+        return weak
+
+    def key(self, case, o):
+        if 'calls' not in o:
+            return None
+        ids = [all_dids(c['before']) for c in o['calls']]
+        a = [x for c, x in zip(o['calls'], ids) if c['which'] == 'A']
+        b = [x for c, x in zip(o['calls'], ids) if c['which'] == 'B']
+        if not a or not b or not (a[0] & b[0]):
+            return None
+        return stable_hash([case['calls']] + [strip_text(c['before']) for c in o['calls']])
+
+    def describe(self, case, o):
+        if 'calls' not in o:
+            return {'case': case, 'impl': o}
+        return {'case': case, 'impl': [{'aggregate': c['which'], 'argument': c['mode'], 'nodes': len(c['before']['nodes']),
+                                        'err': c.get('err'),
+                                        'partitions': {d: [v['gid'], len(v['snap']['nodes'])] for d, v in c.get('adms', {}).items()}}
+                                       for c in o['calls']]}
+
+    def histogram(self, cases, obs):
+        h = {'pairs': 0, 'calls': 0, 'calls_absent': 0, 'calls_none': 0, 'calls_empty': 0, 'calls_dict': 0,
+             'consecutive_absent_calls_on_different_aggregates': 0, 'common_delegation_ids': 0, 'results_rechecked_later': 0}
+        for c, o in zip(cases, obs):
+            if 'calls' not in o:
+                continue
+            h['pairs'] += 1
+            prev = None
+            for k in o['calls']:
+                h['calls'] += 1
+                h['calls_' + k['mode']] += 1
+                if prev and prev['mode'] == k['mode'] == 'absent' and prev['which'] != k['which']:
+                    h['consecutive_absent_calls_on_different_aggregates'] += 1
+                prev = k
+            h['results_rechecked_later'] += sum(1 for k in o['calls'][:-1] if 'adms' in k)
+            a = [all_dids(k['before']) for k in o['calls'] if k['which'] == 'A']
+            b = [all_dids(k['before']) for k in o['calls'] if k['which'] == 'B']
+            if a and b:
+                h['common_delegation_ids'] += len(a[0] & b[0])
+        return h
+
+    def shrink(self, case, failing):
+        case = copy.deepcopy(case)
+        cat = lambda w: (w or '').split(':')[0].split(' raised ')[0]
+        want = cat(self.oracle(case, self.observe(case)))
+        fails = lambda c: (lambda w: w is not None and cat(w) == want)(self.oracle(c, self.observe(c)))
+
+        def try_del(lst, keep=0):
+            i = len(lst) - 1
+            while i >= 0 and len(lst) > keep:
+                x = lst.pop(i)
+                if not fails(case):
+                    lst.insert(i, x)
+                i -= 1
+        try_del(case['calls'], keep=1)
+        for n in ('A', 'B'):
+            sub = case[n]
+            try_del(sub['ann'])
+            for st in list(sub['sites']):
+                for w in st.get('workers', []):
+                    try_del(w.get('comps', []))
+                try_del(st.get('workers', []))
+                for k in ('facs', 'p4'):
+                    if st.get(k):
+                        old = st[k]
+                        st[k] = 0
+                        if not fails(case):
+                            st[k] = old
+            if len(sub['sites']) > 1:
+                try_del(sub['sites'], keep=1)
+        return case
+
+    def gen(self, rng, tier):
+        n = 30 if tier == 'quick' else 250
+        topo = Topo()
+        out = []
+        for _ in range(n):
+            case = {'stream': 'pair'}
+            k = rng.choice([1, 2, 2, 3])
+            for name in ('A', 'B'):
+                sub = topo.recipe(rng, big=False)
+                _reset()
+                arm = build_topo(copy.deepcopy(sub))
+                snap = snapshot(arm.storage, arm.graph_id)
+                nodes = {nid: (v['Class'], v['Stitch'] == 'true') for nid, v in snap['nodes'].items()}
+                sub['via'] = 'direct'
+                sub['ann'] = gen_annotations(rng, nodes, k, 'direct')
+                case[name] = sub
+            order = rng.choice([['A', 'B'], ['A', 'B'], ['A', 'B', 'A'], ['B', 'A', 'B', 'A'], ['A', 'A', 'B']])
+            style = rng.choice(['absent', 'absent', 'mixed', 'mixed', 'none', 'empty'])
+            case['calls'] = [[w, style if style != 'mixed' else rng.choice(['absent', 'absent', 'none', 'empty', 'dict'])]
+                             for w in order]
+            case['guids'] = [d for d in DIDS[:k] if rng.random() < 0.5]
+            out.append(case)
+        _reset()
+        return out
+
+    def corpus(self):
+        return load_corpus('pair')
 
 
 class Raw(C13Stream):
@@ -1275,7 +1495,7 @@ class C13(Check):
     pid = 'C13'
     translators = ['gen_adm13']
     model_targets = ['Model/Adm13.vo']
-    streams = [Topo(), Hist(), Raw()]
+    streams = [Topo(), Hist(), Pair(), Raw()]
     trusted_base = [
         'Coq 8.16.1 kernel (coqc), vm_compute for the correspondence evaluation; no native_compute',
         'Print Assumptions of every C13 theorem: Closed under the global context (no axioms)',
